@@ -227,6 +227,8 @@ func wm(op KOp) libaudit.WaitMode { return libaudit.WaitMode(op.WM) }
 
 // runClientImpl runs a history on the real AuditClient over the simulated kernel.
 func runClientImpl(c KCase) *clientRun {
+	guardEnter(c)
+	defer guardLeave()
 	bl := maxDatagram(c)
 	sim := simkernel.New(c.Seq0, bl, c.CloseFail)
 	cl := &libaudit.AuditClient{Netlink: sim}
@@ -528,6 +530,8 @@ func runHistoryCase(ctx *Ctx, m *common.Model, c KCase, idx int) *common.Violati
 // runFromWireCase: FromWireFormat into a reused (dirty) receiver, buffer placed inside a larger
 // array so that a read beyond len(buf) would pick up sentinel bytes.
 func runFromWireCase(ctx *Ctx, m *common.Model, c KCase, idx int) *common.Violation {
+	guardEnter(c)
+	defer guardLeave()
 	prior, buf := hexBytes(c.Prior), hexBytes(c.Buf)
 	var pw [11]uint32
 	for i := range pw {
@@ -617,6 +621,8 @@ func lenBucket(n int) string {
 
 // runPerrCase: ParseNetlinkError on an arbitrary payload.
 func runPerrCase(ctx *Ctx, m *common.Model, c KCase, idx int) *common.Violation {
+	guardEnter(c)
+	defer guardLeave()
 	buf := hexBytes(c.Buf)
 	arena := make([]byte, len(buf)+16)
 	for i := range arena {
